@@ -380,6 +380,97 @@ def signature_templates() -> tuple[list, list]:
     return sorted(set(hist)), sorted(set(batch))
 
 
+# ---------------------------------------------------------------------------------------------
+# Focus family: every operand of an operator / argument of a function / clause of a binder is evaluated in the SAME
+# focus, whatever its siblings did to the dynamic context (an absolute path moves the context item while it is
+# evaluated).  Law (Scopes.tla, let = substitution by value):  OP(E1, E2) = let $l := E1, $r := E2 return OP($l, $r).
+
+def focus_pairs():
+    """(min version, expression, equivalent expression with the operands bound first); evaluated inside /r/( ... ) on d1."""
+    A_NUM = ['count(//b)', 'number(/r/a[1]/@v)', 'count(/r/a) + 1']
+    R_NUM = ['count(a)', 'number(a[2]/@v)', 'count(*) - 1']
+    A_STR = ['string(/r/b)', 'string(/r/a[2]/@v)', 'name(/r/*[1])']
+    R_STR = ['string(b)', 'string(a[1]/@v)', 'name(*[last()])']
+    A_BOOL = ['exists(/r/b)', 'empty(/r/a)']
+    R_BOOL = ['exists(b)', 'empty(a)']
+    A_SEQ = ['/r/a', '//b', '/r/a/@v']
+    R_SEQ = ['a', 'b', '*', 'a/@v']
+    out = []
+
+    def both(op_fmt, A, R, seq=False):
+        for a in A:
+            for r in R:
+                for x, y in ((a, r), (r, a)):          # the absolute operand first and second
+                    e = op_fmt.format(x, y)
+                    out.append(('3.0', e, f'let $l := ({x}), $r := ({y}) return (' + op_fmt.format('$l', '$r') + ')'))
+                    if not seq:
+                        out.append(('2.0', e, f'for $l in ({x}) return for $r in ({y}) return (' + op_fmt.format('$l', '$r') + ')'))
+    for op in ('+', '-', '*', 'div', 'idiv', 'mod', 'eq', 'lt', 'ge', '=', '!=', '<', 'to'):
+        both('({0}) %s ({1})' % op, A_NUM, R_NUM)
+    for op in ('eq', 'lt', '=', '>'):
+        both('({0}) %s ({1})' % op, A_STR, R_STR)
+    both('({0}) || ({1})', A_STR, R_STR)
+    for fn in ('concat', 'contains', 'starts-with', 'substring-before', 'substring-after', 'compare', 'codepoint-equal', 'ends-with'):
+        both(fn + '({0}, {1})', A_STR, R_STR)
+    for op in ('and', 'or'):
+        both('({0}) %s ({1})' % op, A_BOOL, R_BOOL)
+    for op in (',', '|', 'union', 'intersect', 'except'):
+        both('({0}) %s ({1})' % op, A_SEQ, R_SEQ, seq=True)
+    for op in ('=', '!='):
+        both('({0}) %s ({1})' % op, ['/r/a/@v', '//b'], ['a/@v', 'b', '*'], seq=True)
+    both('subsequence(({0}), 1, {1})', ['/r/a', '(//b, /r/a)'], R_NUM, seq=True)
+    both('insert-before(({0}), 1, ({1}))', A_SEQ, R_SEQ, seq=True)
+    both('index-of(({0}), {1})', ['/r/a/@v', '(1, 2, count(//b))'], R_NUM, seq=True)
+    both('string-join(({0}) ! string(.), {1})', A_SEQ, R_STR, seq=True)
+    both('deep-equal(({0}), ({1}))', A_SEQ, R_SEQ, seq=True)
+    both('max((({0}), ({1})))', A_NUM, R_NUM)
+    both('if ({0}) then ({1}) else 0', A_BOOL, R_NUM)
+    both('if ({0}) then 0 else ({1})', A_BOOL, R_STR)
+    for a in A_SEQ:
+        for r in R_NUM + R_STR:
+            out.append(('3.0', f'for $x in ({a}) return ({r})', f'let $r := ({r}) return for $x in ({a}) return $r'))
+            out.append(('3.0', f'let $x := ({a}) return ({r})', f'let $r := ({r}) return let $x := ({a}) return $r'))
+            out.append(('3.0', f'for $x in (1, 2), $y in ({a}) return ({r})', f'let $r := ({r}) return for $x in (1, 2), $y in ({a}) return $r'))
+        for r in R_SEQ:
+            for kw, ret in (('for', 'return name($y)'), ('some', 'satisfies name($y) = "b"'), ('every', 'satisfies name($y) = "a"')):
+                out.append(('3.0', f'{kw} $x in ({a}), $y in ({r}) {ret}', f'let $r := ({r}) return {kw} $x in ({a}), $y in $r {ret}'))
+            out.append(('3.0', f'let $x := ({a}), $y := ({r}) return count($y)', f'let $r := ({r}) return let $x := ({a}), $y := $r return count($y)'))
+        for r in R_BOOL:
+            out.append(('3.0', f'some $x in ({a}) satisfies ({r})', f'let $r := ({r}) return some $x in ({a}) satisfies $r'))
+            out.append(('3.0', f'every $x in ({a}) satisfies ({r})', f'let $r := ({r}) return every $x in ({a}) satisfies $r'))
+    return [(v, f'/r/({e1})', f'/r/({e2})') for v, e1, e2 in out]
+
+
+def focus_worker(job):
+    import elementpath
+    fails, n = [], 0
+    for minv, e1, e2 in job:
+        for version, P in parsers().items():
+            if version < minv:
+                continue
+            res = []
+            for e in (e1, e2):
+                ctx = make_context('c1')
+                res.append(outcome(lambda: proj_result(elementpath.select(ctx['root'], e, parser=P, **call_kw(ctx, False)))))
+                n += 1
+            if res[0] != res[1]:
+                fails.append((dict(part='focus', outcome='operand_focus_depends_on_sibling', construct=e1[4:].split(')', 1)[-1].strip()[:12] if False else
+                                   _construct(e1), parser=version),
+                              dict(part='focus', expr=e1, law=e2, parser=version), res[1], res[0]))
+    return n, fails
+
+
+def _construct(e: str) -> str:
+    """the operator / function / binder of a focus-family expression (a feature for fingerprints)"""
+    import re
+    inner = e[4:-1]
+    m = re.match(r'(for|let|some|every|if)\b', inner) or re.match(r'([a-z-]+)\(', inner)
+    if m:
+        return m.group(1)
+    m = re.search(r'\) (\S+) \(', inner)
+    return m.group(1) if m else '?'
+
+
 SIG_HISTORIES = [('c1', 'c2', 'c1'), ('c2', 'c1', 'c3'), ('c3', 'c4', 'c3'), ('c4', 'c3', 'c1'), ('c1', 'c1', 'c2'),
                  ('c1', 'edit:c1', 'c1'), ('c3', 'edit:c3', 'c3')]
 
@@ -588,6 +679,12 @@ def replay(rec: dict) -> int:
                                                                parser=parsers()[case['parser']])))
         print('expr', case['expr'], '\nexpected', rec['expected'], '\nobserved', obs)
         return 0 if obs == rec['expected'] else 1
+    if case['part'] == 'focus':
+        n, fails = focus_worker([('2.0', case['expr'], case['law'])])
+        fails = [f for f in fails if f[0]['parser'] == case['parser']]
+        for f in fails:
+            print(f[0], '\nexpected', f[2], '\nobserved', f[3])
+        return 1 if fails else 0
     if case['part'] in ('sighistory', 'forbatch'):
         item = ('hist', case['expr']) if case['part'] == 'sighistory' else ('batch', case['loop'], case['flat'])
         n, fails, _ = sig_worker([item])
@@ -697,6 +794,17 @@ def run(chk: core.Check) -> None:
     chk.coverage['signature_family'] = dict(history_expressions=len(sig_hist), for_batch_pairs=len(sig_batch), histories=len(SIG_HISTORIES),
                                             evaluations=n_sig, skipped_unparsable_or_nondeterministic=skipped)
     print(f'  signature family: calls={len(sig_hist)} batches={len(sig_batch)} evaluations={n_sig} skipped={skipped}', flush=True)
+    # (4) focus family
+    fp = focus_pairs()
+    nf = 0
+    for n, fails in core.pool_map(focus_worker, core.chunked(fp, 32)):
+        chk.add('evaluations', n)
+        nf += n
+        for feat, case, exp, obs in fails:
+            chk.fail(feat, case, exp, obs, what=f'{case["expr"]}  vs  {case["law"]}')
+    chk.add('traces_validated_against_impl', len(fp))
+    chk.coverage['focus_family'] = dict(pairs=len(fp), evaluations=nf)
+    print(f'  focus family: pairs={len(fp)} evaluations={nf}', flush=True)
     chk.sample(dict(history=list(hists[len(hists) // 2]), expression=pool[16][1], modes=['selector', 'selector_iter', 'token']))
     chk.coverage['history_pool'] = dict(expressions=len(pool), histories=len(hists), contexts=3)
     chk.coverage['exhaustive'] = True
